@@ -1287,6 +1287,37 @@ package gohlslib
 //@        && callarg("clientTrack.handleData", 0, 5) == entry.data)
 //@ end
 
+// C10: the leading track of an MPEG-TS stream is the first H264 track among the tracks the client REPORTS (the
+// supported ones), else the first reported track: the index is compared with positions in that list
+//@ pred isH264M(t *mpegts.Track) := t != nil && t.Codec != nil && is(t.Codec, *mpegts.CodecH264)
+//@ pred leadM(ts []*mpegts.Track, k int) := (0 <= k && k < len(ts) && isH264M(ts[k]) && forall(j, (0 <= j && j < k) ==> !isH264M(ts[j])))
+//@   || (k == 0 && forall(j, (0 <= j && j < len(ts)) ==> !isH264M(ts[j])))
+
+// T3 (read off mediacommon's reader.go): registering a callback stores it in the reader and touches nothing else
+//@ func ext:mpegts.Reader.OnDataH264
+//@   modifies *r
+//@ end
+
+//@ func ext:mpegts.Reader.OnDataMPEG4Audio
+//@   modifies *r
+//@ end
+
+//@ func mpegtsPickLeadingTrack
+//@   props C10
+//@   requires forall(i, (0 <= i && i < len(mpegtsTracks)) ==> mpegtsTracks[i] != nil)
+//@   ensures leadM(mpegtsTracks, result)
+//@   loop 1 invariant -1 <= ri && ri < len(mpegtsTracks) && forall(j, (0 <= j && j <= ri) ==> !isH264M(mpegtsTracks[j]))
+//@ end
+
+//@ func clientStreamProcessorMPEGTS.initializeReader
+//@   props C10 C13
+//@   nosafety
+//@   noframe
+//@   nocallpre
+//@   modifies *
+//@   loop 3 invariant leadM(supportedTracks, leadingTrackID)
+//@ end
+
 // the TS reader calls back into processSample for every unit it demuxes: anything reachable may change
 //@ func ext:mpegts.Reader.Read
 //@   modifies *
